@@ -431,6 +431,43 @@ func seqFamily(maxLen int) *core.Family {
 	}
 }
 
+// many policies: counts of satisfied permits / satisfied forbids / erroring policies that
+// cross 8, 16 and 32 (slice growth, map growth, ids policy10.. sorting after policy1).
+func manyFamily() *core.Family {
+	counts := []int{0, 1, 2, 9, 17, 33}
+	nc := len(counts)
+	return &core.Family{
+		Name: "many-policies",
+		Desc: fmt.Sprintf("documents with p satisfied permits, f satisfied forbids, e erroring policies (alternating effects) and 3 unsatisfied ones, interleaved, for p, f, e in %v (up to 102 policies): decision, the complete reason set and the complete error set on every seam", counts),
+		N:    int64(nc * nc * nc),
+		Run: func(t *core.T, i int64) {
+			x := int(i)
+			np, nf, ne := counts[x%nc], counts[x/nc%nc], counts[x/nc/nc]
+			var items []item
+			k := 0
+			add := func(forbid bool, cls int) {
+				items = append(items, item{forbid: forbid, atom: byClass[cls][k%len(byClass[cls])]})
+				k++
+			}
+			for a := 0; a < np || a < nf || a < ne; a++ {
+				if a < np {
+					add(false, sat)
+				}
+				if a < nf {
+					add(true, sat)
+				}
+				if a < ne {
+					add(a%2 == 0, erring)
+				}
+				if a < 3 {
+					add(a%2 == 1, unsat)
+				}
+			}
+			checkSeq(t, items)
+		},
+	}
+}
+
 func pairFamily() *core.Family {
 	n := 2 * nHand
 	return &core.Family{
@@ -457,7 +494,7 @@ func Check() *core.Check {
 			if tier == "thorough" {
 				n = 8
 			}
-			return []*core.Family{atomFamily(), pairFamily(), condFamily(), seqFamily(n)}
+			return []*core.Family{atomFamily(), pairFamily(), condFamily(), manyFamily(), seqFamily(n)}
 		},
 	}
 }
